@@ -257,6 +257,31 @@ ENTRY_IT_PLAN = e1prop.Plan('C08', _entry_rows(), cfgs=('v6', 'v7', 'v7-virt', '
                             case_kw=lambda rng, row: {'mpu': False, 'mmu': False, 'code_base': 0x8000, 'it': rng.choice([x for x in gen.IT_STATES if x])})
 
 
+# ---------------------------------------------------------------------------------------------- exception returns as the last instruction of an IT block
+# "returning restores it": a Thumb handler may return conditionally (IT <c> ; SUBS<c> PC,LR / ERET<c> / RFE<c>): when the return executes, ITSTATE is what
+# the SPSR / the stacked PSR says - the interrupted program's - and when its condition fails the block simply retires
+def _return_it_tweak(rng, row, w, case):
+    from vf.props import c12
+    from vf.props.c05 import passing_flags
+    c12.tweak(rng, row, w, case)
+    st_ = case['state']
+    fc = rng.randrange(14)
+    it = (fc << 4) | 0x8                                   # last (only remaining) slot of a block
+    st_['cpsr'] = (st_['cpsr'] & ~0x0600FC00) | ((it & 3) << 25) | ((it >> 2) << 10)
+    if rng.random() < 0.75:
+        st_['cpsr'] = (st_['cpsr'] & 0x0FFFFFFF) | (passing_flags(rng, fc) << 28)
+    # the PSR being restored describes a program interrupted inside an IT block of its own
+    ret_it = rng.choice([x for x in gen.IT_STATES if x])
+    for k in gen.SPSR_KEYS:
+        if rng.random() < 0.8:
+            st_[k] = (st_[k] & ~0x0600FC00 | ((ret_it & 3) << 25) | ((ret_it >> 2) << 10)) | (1 << 5)
+
+
+RETURN_IT_PLAN = e1prop.Plan('C08', [r for r in ('SUBS_PC_LR_T1', 'ERET_T1', 'RFE_T1', 'RFE_T2') if r in e1prop.ROWS], cfgs=('v6', 'v7', 'v7-virt', 'v6-nosec'),
+                             tweak_case=_return_it_tweak, hooked=(False, True), classify=lambda res, case: ['return-in-last-it-slot:' + res.status],
+                             case_kw=lambda rng, row: {'mpu': False, 'mmu': False, 'code_base': 0x8000, 'e': 0, 'mode': rng.choice(('svc', 'irq', 'abt', 'und', 'fiq'))})
+
+
 def run(ctx):
     ctx.rule = ('(1) exhaustive: all %d legal (firstcond, mask) pairs x 16 NZCV: IT followed by 1-4 16-bit flag-setting-form ALU / 32-bit MOV '
                 'instructions, then two unconditional flag-setting instructions; (2) Hypothesis-generated blocks whose slots come from a pool '
@@ -271,6 +296,7 @@ def run(ctx):
     tasks += [(shard_programs, (ctx.shard_seed(100 + i), ctx.n(1200, 40000))) for i in range(24)]
     tasks += [(shard_entry, (ctx.shard_seed(300 + i), ctx.n(1500, 30000))) for i in range(8)]
     tasks += [(e1prop.shard, ('vf.props.c08:ENTRY_IT_PLAN', ctx.shard_seed(400 + i), ctx.n(300, 6000))) for i in range(8)]
+    tasks += [(e1prop.shard, ('vf.props.c08:RETURN_IT_PLAN', ctx.shard_seed(500 + i), ctx.n(150, 3000))) for i in range(4)]
     ctx.pmap(_dispatch, tasks)
     ctx.acc.exhaustive = True
     ctx.acc.extra['exhaustive_part'] = 'all legal (firstcond, mask) x NZCV start states'
